@@ -13,9 +13,10 @@ from sim.disk import SimDisk
 from .c02 import after_list_removal  # noqa: F401
 
 ID = "C04"
+VARY_KNOBS = True  # module-level tuning constants of the library are lowered in some runs (sim.core.lower_tuning_constants)
 SHRINK_LISTS = ("ops", "faults")
 SHRINK_MIN = {"nchans": 1, "nbits": 1, "n": 1}
-SHRINK_SIMPLE = {"stale": 0}
+SHRINK_SIMPLE = {"knobs": None, "stale": 0}
 KINDS = ["fil", "fil", "fil", "block", "tim", "dat", "spec", "fft"]
 DT = ["uint8", "uint16", "int64", "float32", "float64"]
 # further in-memory types a caller holds (astropy hands out big-endian arrays; integer arithmetic gives int32/int16):
